@@ -30,5 +30,29 @@ CHECKS = {
                 "random histories. Trusted: TLC, the dumb executor harness/c15_driver.cpp, g++ 12.",
     },
 }
-for k in CHECKS:
-    pass
+CHECKS["C13"] = {
+    "technique": "TLA+ Contract/Model (SbxContract/Sbx), TLC Model=>Contract + TablesExact, every Model edge replayed "
+                 "on real sandbox_callback owners (vm + no-op backends) with forked reachability probes, TLC trace "
+                 "validation",
+    "text": "TLC explores the bounded ownership models (register/unregister/destroy/move-construct/move-assign/"
+            "destroy+re-create sandbox; 1-2 sandboxes, 2-3 functions, 2-3 owners, 1-2 entry points) completely, checks "
+            "Model => Contract and that the code's key list and slot table equal the Contract's registered set; every "
+            "edge is replayed on real sandbox_callback objects in harness-managed storage on the foreign-ABI vm backend "
+            "and the bundled no-op backend, reachability being probed by calling every entry point ever handed out in "
+            "a forked child; TLC validates every recorded call (result + owner projection) against the Contract; "
+            "capacity histories (2 and 64 entry points) and random histories are validated the same way.",
+    "note": "Bounded models; reachability is observed through forked probe calls; dylib backend's identical slot code "
+            "is exercised by C12. Trusted: TLC, harness/sbx_driver.cpp, vm backend, g++ 12.",
+}
+CHECKS["C14"] = {
+    "technique": "TLA+ Contract/Model (SbxContract/Sbx), TLC complete bounded state space, every edge replayed on up "
+                 "to three real rlbox_sandbox objects (finder-based vm backend, no-op), TLC trace validation",
+    "text": "TLC explores lifecycle models with create(ok/fail)/destroy/malloc/free/register/unregister/invoke-by-name/"
+            "function-address/example-translation on 1-3 sandbox objects and up to 3 incarnations, proves Model => "
+            "Contract and that the live list equals the set of created sandboxes and nothing survives an incarnation; "
+            "every edge is replayed on real objects (vm backend whose example-based translation walks the registry, "
+            "two libraries exporting the same names; no-op backend for the lifecycle part) and every recorded call is "
+            "validated by TLC against the Contract; random histories on three objects beyond the bound.",
+    "note": "Calls into a sandbox that is not created are undefined and never made; a create after a failed create "
+            "may abort. Trusted: TLC, harness/sbx_driver.cpp, vm backend, g++ 12.",
+}
